@@ -164,7 +164,7 @@ def search(item, seed):
                 return dict(function="interpolate_ground_truth_frames", input=case, observed=why)
         if item["name"] != "bounded-native-search":
             return None
-    if "interpolate_list" in item["func"]:
+    if "interpolate_list" in item["func"] or item["name"] == "bounded-native-search":
         for _ in range(300):
             n = rnd.randint(0, 4)
             l1 = [rnd.uniform(-5, 5) for _ in range(n)]
@@ -175,7 +175,8 @@ def search(item, seed):
             why = check_list(l1, l2, t1, t2, t)
             if why:
                 return dict(function="interpolate_list", input=dict(l1=l1, l2=l2, t1=t1, t2=t2, t=t), observed=why)
-        return None
+        if item["name"] != "bounded-native-search":
+            return None
     # exhaustive small scope: up to 4 frames at times in 0..6, query -2..8, tolerance 0..4
     for n in range(0, 5):       # also no frame at all: nothing is returned
         for times in itertools.combinations(range(0, 7), n):
